@@ -322,7 +322,12 @@ func processNormalMappingData(mapping Mapping, remainder []byte, size *Integer, 
 	map_bytes := remainder[:size.Int()]
 	remainder = remainder[size.Int():]
 
-	vals, _, mappingValueErrs := ReadMappingValues(map_bytes, *size)
+	vals, unparsed, mappingValueErrs := ReadMappingValues(map_bytes, *size)
+	if len(mappingValueErrs) == 0 && len(unparsed) > 0 {
+		// The declared size covers bytes that do not form a key-value pair; they
+		// cannot be represented, so accepting them silently would drop data.
+		mappingValueErrs = append(mappingValueErrs, oops.Errorf("mapping format violation: %d bytes inside the declared size do not form a key-value pair", len(unparsed)))
+	}
 	err = append(err, mappingValueErrs...)
 	mapping.vals = vals
 
